@@ -13,6 +13,12 @@ CLAIMED = {
             'codecs / json.dumps are environment parameters; conformance of the real writer rests on the correspondence run'),
     'C04': ('Lean 4 theorems (induction over every nested container history): reader and writer stacks equal the specification (nearest declaring ancestor), siblings never leak, diffs never inherit; exhaustive small-scope correspondence on reader and writer',
             'stack updates extracted as Reader.pushEnc / Writer.pushFrame mirror reader.py:252-266 and writer.py:452-460 (validated differentially)'),
+    'C07': ('Lean 4 theorems for every byte string and every cut point: content is framed by its declared length; with the length check switched on (model switch) the records of a truncated file are a prefix of the intact file records; the code as it is yields at most one extra short-read record (D12 witness proved in Lean and replayed every run); every truncation point of generated files against the real reader',
+            'known finding D12 (short reads) is pinned by the unedited test-suite; classifier uses an instrumented stream'),
+    'C12': ('Lean 4 theorems from any reader state: inserting a valid unknown option anywhere keeps the header accepted and every other key unchanged; option lists agreeing on the six keys the reader looks up give the same section and the same rest of the run; extended writer-produced and foreign files against the real reader',
+            'integers are expected converted as by C11'),
+    'C15': ('Lean 4 theorems: newline computation and line-ending detection use a codec name only through the environment, the newline is BOM-free whenever the BOM table has an adequate row under the canonical name, and the extracted table is adequate for the platform BOM codecs (tie); all ~1,100 spellings of ~110 CPython text codecs checked against a BOM-table-free computation, plus writer->reader round trips with byte equality across spellings',
+            'codec laws are tested per codec here (part of the trusted base of C01-C03); stateful codecs (hz, iso2022_*, utf-7, idna, punycode) are outside the domain'),
     'C08': ('Lean 4 theorems for every byte string: iteration terminates, stops only with done or a parse error (other outcomes unreachable), line numbers and columns lie within the input (partial: codecs whose newline contains LF); corruption-fuzz correspondence',
             'object-model clauses (library error family, stream closed) are checked by the differential harness against the DOM model; D13b/D21 are known findings'),
     'C09': ('Lean 4 theorems for every writer state and call: rejection is atomic, acceptance appends a non-empty block, accepted iff in hierarchy order (given valid arguments), rejected calls are no-ops for the rest of the run; exhaustive call sequences to length 6/8 against the real writer',
